@@ -311,36 +311,67 @@ Proof.
   rewrite dedup_In. intros H. apply mem_In in H. congruence.
 Qed.
 
-Lemma cmpQ_lt_frac : forall m n a b, n <> 0 ->
-  cmpQ CLt (Z.of_nat m # Pos.of_nat n)%Q (Zpos a # b)%Q = (Pos.to_nat b * m <? Pos.to_nat a * n).
+(* facts about the four statistics that make redundant tests of the rule harmless *)
+Lemma count_all_equal : forall x l, (forall y, In y l -> y = x) -> count x l = length l.
 Proof.
-  intros m n a b Hn. unfold cmpQ, Qcompare. cbn [Qnum Qden].
-  rewrite Zpos_of_nat by exact Hn.
-  destruct (Z.compare_spec (Z.of_nat m * Zpos b) (Zpos a * Z.of_nat n)) as [H|H|H];
-    symmetry; [apply Nat.ltb_ge | apply Nat.ltb_lt | apply Nat.ltb_ge]; lia.
+  induction l as [|y l IH]; intros H; cbn [count length]; [reflexivity|].
+  rewrite (H y (or_introl eq_refl)), str_eqb_refl. rewrite IH; [reflexivity|].
+  intros z Hz. apply H. right. exact Hz.
+Qed.
+
+Lemma distinct_one_all_equal : forall l x, In x l -> distinct l <= 1 -> forall y, In y l -> y = x.
+Proof.
+  intros l x Hx Hd y Hy. unfold distinct in Hd.
+  apply dedup_In in Hx. apply dedup_In in Hy.
+  destruct (dedup l) as [|a [|b r]]; cbn [length] in Hd; [destruct Hx | | lia].
+  destruct Hx as [<-|[]]. destruct Hy as [<-|[]]. reflexivity.
+Qed.
+
+Lemma stats_facts : forall l, l <> [] ->
+  1 <= length l /\ 1 <= distinct l /\ 1 <= maxcount l <= length l
+  /\ (forall s, count s l <= length l) /\ (distinct l <= 1 -> maxcount l = length l).
+Proof.
+  intros l Hne. destruct l as [|x r]; [congruence|].
+  assert (Hin : In x (x :: r)) by (left; reflexivity).
+  split; [cbn [length]; lia|]. split.
+  { unfold distinct. assert (H : In x (dedup (x :: r))) by (apply dedup_In; exact Hin).
+    destruct (dedup (x :: r)); [destruct H | cbn [length]; lia]. }
+  split.
+  { split; [|apply maxcount_le_length].
+    apply Nat.le_trans with (count x (x :: r)); [|apply maxcount_ge; exact Hin].
+    cbn [count]. rewrite str_eqb_refl. lia. }
+  split; [intros s; apply count_le_length|].
+  intros Hd. apply Nat.le_antisymm; [apply maxcount_le_length|].
+  rewrite <- (count_all_equal x (x :: r)); [apply maxcount_ge; exact Hin|].
+  intros y Hy. apply (distinct_one_all_equal (x :: r) x Hin Hd y Hy).
+Qed.
+
+(* the rule of the source = the rule of the property, on any statistics a non-empty column can have;
+   the proof only uses linear arithmetic on the constants read from the source, so it also goes through
+   for logically equivalent spellings of the rule *)
+Lemma keep_of_equiv : forall d m c n,
+  1 <= n -> 1 <= d -> 1 <= m <= n -> c <= n -> (d <= 1 -> m = n) ->
+  keep_gen_of distinct_op distinct_rhs maj_op max_maj_support nan_op nan_prop_support d m c n
+  = keep_spec_of d m c n.
+Proof.
+  intros d m c n Hn Hd Hm Hc H1.
+  unfold keep_gen_of, keep_spec_of, cmpQ, Qcompare, inject_Z.
+  unfold distinct_op, distinct_rhs, maj_op, max_maj_support, nan_op, nan_prop_support.
+  cbn [Qnum Qden]. rewrite Zpos_of_nat by lia.
+  destruct (Nat.ltb_spec 1 d); destruct (Nat.ltb_spec (5 * m) (4 * n)); destruct (Nat.ltb_spec (4 * c) (3 * n));
+    cbn [andb];
+    repeat match goal with
+           | |- context [(?a ?= ?b)%Z] => destruct (Z.compare_spec a b)
+           end; cbn [andb]; try reflexivity; exfalso; lia.
 Qed.
 
 Lemma keep_code_spec : forall l, keep_code l = keep_spec l.
 Proof.
   intros l. destruct l as [|x r]; [vm_compute; reflexivity|].
-  unfold keep_code, keep_gen, keep_gen_of, keep_spec, keep_spec_of.
-  unfold distinct_op, distinct_rhs, maj_op, max_maj_support, nan_op, nan_prop_support, nan_literal.
-  rewrite !cmpQ_lt_frac by (cbn [length]; lia).
-  fold nan_str.
-  assert (D : cmpQ CGt (inject_Z (Z.of_nat (distinct (x :: r)))) (1 # 1)%Q = (1 <? distinct (x :: r))).
-  { unfold cmpQ, Qcompare, inject_Z. cbn [Qnum Qden].
-    destruct (Z.compare_spec (Z.of_nat (distinct (x :: r)) * 1) (1 * 1)) as [H|H|H];
-      symmetry; [apply Nat.ltb_ge | apply Nat.ltb_ge | apply Nat.ltb_lt]; lia. }
-  rewrite D.
-  replace (Pos.to_nat 100 * maxcount (x :: r) <? Pos.to_nat 80 * length (x :: r))
-    with (5 * maxcount (x :: r) <? 4 * length (x :: r)).
-  2:{ destruct (Nat.ltb_spec (5 * maxcount (x :: r)) (4 * length (x :: r)));
-      symmetry; [apply Nat.ltb_lt | apply Nat.ltb_ge]; lia. }
-  replace (Pos.to_nat 100 * count nan_str (x :: r) <? Pos.to_nat 75 * length (x :: r))
-    with (4 * count nan_str (x :: r) <? 3 * length (x :: r)).
-  2:{ destruct (Nat.ltb_spec (4 * count nan_str (x :: r)) (3 * length (x :: r)));
-      symmetry; [apply Nat.ltb_lt | apply Nat.ltb_ge]; lia. }
-  reflexivity.
+  unfold keep_code, keep_gen, keep_spec.
+  change nan_literal with nan_str.
+  destruct (stats_facts (x :: r)) as [F1 [F2 [F3 [F4 F5]]]]; [discriminate|].
+  apply keep_of_equiv; auto.
 Qed.
 
 Lemma keep_spec_iff : forall l, keep_spec l = true <->
@@ -404,12 +435,27 @@ Lemma parse_cell_strip : forall s, parse_cell s = parse_cell (strip strip_char s
 Proof. intros. unfold parse_cell, parse_cell_gen. rewrite strip_idem. reflexivity. Qed.
 
 Lemma parse_cell_unfold : forall s,
-  parse_cell s = match strip 34%N s with [] => Some (0 # 10)%Q | t => parse_float t end.
+  parse_cell s = match strip 34%N s with [] => Some empty_value | t => parse_float t end.
 Proof. reflexivity. Qed.
 
-Lemma parse_cell_only_quotes : forall s, (forall c, In c s -> c = 34%N) -> parse_cell s = Some (0 # 10)%Q.
+Lemma oQeq_refl : forall a, oQeq a a.
+Proof. intros [q|]; cbn; [apply Qeq_refl | exact I]. Qed.
+
+(* the parse of the source (stripped character, value of the empty cell) = the parse of the property *)
+Lemma parse_cell_is_spec : forall s, oQeq (parse_cell s) (parse_cell_spec s).
 Proof.
-  intros s H. rewrite parse_cell_unfold.
+  intros s. unfold parse_cell, parse_cell_spec, parse_cell_gen.
+  change strip_char with 34%N.
+  destruct (strip 34%N s); [|apply oQeq_refl].
+  cbn [oQeq]. unfold empty_value. reflexivity.
+Qed.
+
+Lemma parse_cell_spec_empty : parse_cell_spec [] = Some 0%Q.
+Proof. reflexivity. Qed.
+
+Lemma parse_cell_only_quotes : forall s, (forall c, In c s -> c = 34%N) -> parse_cell_spec s = Some 0%Q.
+Proof.
+  intros s H. unfold parse_cell_spec, parse_cell_gen.
   replace (strip 34%N s) with (@nil N); [reflexivity|].
   induction s as [|c s IH]; [reflexivity|]. unfold strip. cbn [filter].
   rewrite (H c (or_introl eq_refl)). cbn. apply IH. intros d Hd. apply H. right. exact Hd.
@@ -894,10 +940,10 @@ Example keep_boundaries :
 Proof. repeat split; vm_compute; reflexivity. Qed.
 
 Example parse_examples :
-  parse_cell [] = Some (0 # 10)%Q
+  parse_cell_spec [] = Some 0%Q
   /\ parse_cell (s2l """12.5""") = Some (125 # 10)%Q
   /\ parse_cell (s2l "-3e2") = Some (-300 # 1)%Q
-  /\ parse_cell (s2l """""") = Some (0 # 10)%Q
+  /\ parse_cell_spec (s2l """""") = Some 0%Q
   /\ parse_cell (s2l "1e-2") = Some (1 # 100)%Q
   /\ parse_cell (s2l "abc") = None.
 Proof. repeat split; vm_compute; reflexivity. Qed.
